@@ -42,11 +42,20 @@ IGNORE = "# static analysis: ignore"
 BASE_ON = {"unused_ignore": True, "bare_ignore": True}
 
 TEMPLATES = [
+    # operator mismatches and an overloaded call that no overload accepts, next to an ordinary wrong argument: the verdicts
+    # of these constructs are computed from argument checks whose own code may be disabled
+    'from typing import overload\ndef f(a: int) -> str:\n    return ""\n@overload\ndef ov(x: int) -> int: ...\n@overload\ndef ov(x: str) -> str: ...\n'
+    'def ov(x):\n    return x\ndef g(xs: list, n: int):\n    f("x")\n    y = n + "a"\n    xs += 1\n    z = ov(1.5)\n    w = -"s"\n    return (y, z, w, undefined_zz)\n',
     'def f(): return undefined_a + 1\ndef g(p):\n    x = undefined_b; y = "%d" % "s"\n    return (x, y,\n            undefined_c)\ndef h(): return undefined_d\n',
     'import os\ndef f(a: int) -> str:\n    return a\ndef g():\n    f("x"); os.nope\n    return f(1,\n             2)\n',
     'def f():\n    "%s %s" % (1,)\n    return undefined_q\n\n\ndef g():\n    return [undefined_r\n            for _ in range(3)]\n',
     '# a leading comment\n# second leading comment\ndef f(): return undefined_a\nx = 1\ndef g():\n    return undefined_b.attr + "a" % 1\n',
 ]
+
+
+# codes whose checks feed other diagnostics internally (caught errors decide operator / overload outcomes): they are
+# disabled even in programs that show no diagnostic of that code - nothing may change then
+ALWAYS_CODES = ["incompatible_argument", "incompatible_call", "unsupported_operation", "undefined_attribute", "incompatible_assignment"]
 
 
 def first_line(m):
@@ -243,7 +252,7 @@ def judge_disable(src, subsets, col=None):
     d = tempfile.mkdtemp(prefix="pv_c11_")
     try:
         for S in subsets:
-            S = [c for c in S if c in {x[0] for x in base}]
+            S = [c for c in S if c in {x[0] for x in base} or c in ALWAYS_CODES]
             if not S:
                 continue
             expected = [x for x in base if x[0] not in S]
@@ -380,7 +389,7 @@ def run_shard(spec):
             for key, what, case in judge_comments(src, col) or []:
                 col.fail(key, what, case)
             codes = sorted({d.code for d in check(src)})
-            subsets = [[c] for c in codes] + [codes[:2], codes[1:]]
+            subsets = [[c] for c in codes] + [codes[:2], codes[1:]] + [[c] for c in ALWAYS_CODES if c not in codes]
             for key, what, case in judge_disable(src, subsets, col) or []:
                 col.fail(key, what, case)
         col.sample(TEMPLATES[0])
@@ -409,6 +418,7 @@ def run_shard(spec):
                 return
             codes = sorted({d.code for d in check(src)})
             subsets = data.draw(st.lists(st.lists(st.sampled_from(codes), min_size=1, max_size=3, unique=True), min_size=1, max_size=3))
+            subsets.append([data.draw(st.sampled_from(ALWAYS_CODES))])
             fails += judge_disable(src, subsets, col) or []
             col.sample({"origin": origin, "mutations": muts})
             for key, what, case in fails:
